@@ -57,6 +57,77 @@ theorem invalid_rejected (m : Mode) (h : Heur) :
   · rfl
   · cases h <;> simp [solveFlow]
 
+/-! ## a solve of the dimension-reduction stage that fails -/
+
+/-- without a failing solve the flow is `solveFlow` -/
+theorem no_failure_is_solveFlow (h : Heur) (m : Mode) : solveFlowUpTo h m 0 = solveFlow h m := by
+  simp [solveFlowUpTo]
+
+/-- **a failing heuristic solve never changes the certificate**: the multipliers stay those of the first solve -/
+theorem heuristic_failure_keeps_duals (h : Heur) (m : Mode) (failAt : Nat) :
+    (solveFlowUpTo h m failAt).dualsFrom = 1 := by
+  have h1 := duals_from_first_solve h m
+  by_cases hc : 2 ≤ failAt ∧ failAt ≤ (solveFlow h m).primalFrom
+  · simp [solveFlowUpTo, hc, h1]
+  · simp [solveFlowUpTo, hc, h1]
+
+/-- the instance kept is the one of the solve just before the failing one — a solve that succeeded, the first one at least -/
+theorem heuristic_failure_instance (h : Heur) (m : Mode) (failAt : Nat)
+    (h2 : 2 ≤ failAt) (hl : failAt ≤ (solveFlow h m).primalFrom) :
+    (solveFlowUpTo h m failAt).primalFrom = failAt - 1 ∧ 1 ≤ (solveFlowUpTo h m failAt).primalFrom ∧
+    (solveFlowUpTo h m failAt).primalFrom < failAt := by
+  have : (solveFlowUpTo h m failAt).primalFrom = failAt - 1 := by simp [solveFlowUpTo, h2, hl]
+  rw [this]; omega
+
+theorem getLast_takeThrough (c : WCall) (l : List WCall) (hc : c ∈ l) : (takeThrough c l).getLast? = some c := by
+  induction l with
+  | nil => cases hc
+  | cons x xs ih =>
+    by_cases hx : x = c
+    · simp [takeThrough, hx]
+    · have hmem : c ∈ xs := by
+        rcases List.mem_cons.mp hc with h | h
+        · exact absurd h.symm hx
+        · exact h
+      have hne : takeThrough c xs ≠ [] := by
+        intro h0; have := ih hmem; simp [h0] at this
+      simp [takeThrough, hx, List.getLast?_cons_of_ne_nil hne, ih hmem]
+
+theorem solve_mem_logdetRounds (n j k : Nat) (h1 : j ≤ k) (h2 : k < j + n) : WCall.solve k ∈ logdetRounds n j := by
+  induction n generalizing j with
+  | zero => omega
+  | succ n ih =>
+    by_cases hk : k = j
+    · subst hk; simp [logdetRounds]
+    · have := ih (j + 1) (by omega) (by omega)
+      simp [logdetRounds, this]
+
+/-- nothing is issued after the failing solve: it is the last call of the flow -/
+theorem heuristic_failure_stops (h : Heur) (m : Mode) (failAt : Nat)
+    (h2 : 2 ≤ failAt) (hl : failAt ≤ (solveFlow h m).primalFrom) :
+    (solveFlowUpTo h m failAt).calls.getLast? = some (.solve failAt) := by
+  have hc : (solveFlowUpTo h m failAt).calls = takeThrough (.solve failAt) (solveFlow h m).calls := by
+    simp [solveFlowUpTo, h2, hl]
+  rw [hc]
+  apply getLast_takeThrough
+  cases h with
+  | none => simp [solveFlow] at hl; omega
+  | invalid => simp [solveFlow] at hl; omega
+  | trace =>
+    have : failAt = 2 := by simp [solveFlow] at hl; omega
+    subst this; simp [solveFlow]
+  | logdet n =>
+    have hl' : failAt ≤ n + 1 := by simpa [solveFlow] using hl
+    have := solve_mem_logdetRounds n 2 failAt h2 (by omega)
+    simp [solveFlow, this]
+
+example : solveFlowUpTo (.logdet 3) .dual 3 =
+    { calls := [.solve 1, .recover 1, .prepare, .heuristic, .solve 2, .heuristic, .solve 3], dualsFrom := 1, primalFrom := 2, raises := false } := by
+  decide
+example : solveFlowUpTo .trace .primal 2 =
+    { calls := [.solve 1, .recover 1, .prepare, .heuristic, .solve 2], dualsFrom := 1, primalFrom := 1, raises := false } := by
+  decide
+
 /-! ## the optimisation argument -/
 
 variable {X : Type}
